@@ -654,3 +654,31 @@ Example disjoint_example :
   disjoint_insts str_a srt_b = true /\ writes (fp_of repaired_facts srt_b) <> [] /\
   reads (fp_of repaired_facts str_a) <> [].
 Proof. split; [reflexivity|]. split; discriminate. Qed.
+
+(* ---------- a concrete instance of the hypotheses of [indep_commutes] ---------- *)
+
+Lemma inst_add_wf i z : op_wf cell (inst_add i z).
+Proof.
+  split.
+  - intros s c Hn. simpl in *. unfold cupd, upd. destruct (cell_eqb (CInst i) c) eqn:E; [|reflexivity].
+    apply cell_eqb_spec in E. exfalso. apply Hn. left. exact E.
+  - intros s s' Hag. assert (E : s (CInst i) = s' (CInst i)) by (apply Hag; left; reflexivity).
+    simpl. split; [exact E|]. intros c [Hc|[]]. subst c. unfold cupd, upd.
+    assert (R : cell_eqb (CInst i) (CInst i) = true) by (apply cell_eqb_spec; reflexivity).
+    rewrite R, E. reflexivity.
+Qed.
+
+Definition demo_threads : list (thread cell) :=
+  [[inst_add 1 5; inst_add 1 7]; [inst_add 2 1]; [inst_add 3 2; inst_add 3 2; inst_add 3 2]].
+
+Lemma demo_threads_wf : forall t, In t demo_threads -> Forall (op_wf cell) t.
+Proof.
+  intros t [H|[H|[H|[]]]]; subst t; repeat (apply Forall_cons; [apply inst_add_wf|]); apply Forall_nil.
+Qed.
+
+Lemma demo_threads_no_conflict : pairwise_no_conflict cell demo_threads.
+Proof.
+  unfold demo_threads, pairwise_no_conflict.
+  repeat (constructor; [repeat constructor; apply (threads_conflict_false cell cell_eqb cell_eqb_spec); reflexivity |]).
+  constructor.
+Qed.
